@@ -164,7 +164,7 @@ class IterPatterns(Contract):
 
 class GlobInit(Contract):
     """Glob.__init__: flag-derived fields and the order of the two _parse_patterns calls (symbolic up to the calls)."""
-    module, qual, props = 'glob', 'Glob.__init__', ('C03', 'C06', 'C11', 'C12', 'C13', 'C17', 'C18')
+    module, qual, props = 'glob', 'Glob.__init__', ('C03', 'C06', 'C11', 'C12', 'C13', 'C17', 'C18', 'C16')
     assumptions = (FL.PLATFORM_ASSUMPTION, 'SUPPORT_DIR_FD is a platform constant; os.fspath is pure')
     allowed_raises = ('TypeError', 'PatternLimitException')
     forking = ('self._parse_patterns',)
@@ -281,7 +281,7 @@ class GlobInit(Contract):
         f1 = me.F1
         out = [
             ('Glob.__init__.flags==T(flags|REALPATH)_with_MARK_NEGATEALL_NODIR__PATHLIB_stripped_and_NODOTDIR_forced_unless_SCANDOTDIR', ('C03', 'C12', 'C17'), guard(flags_ok)),
-            ('Glob.__init__.negate_flags_include_DOTMATCH_(exclusions_behave_as_if_DOTGLOB)', ('C03',), guard(negate_flags_ok)),
+            ('Glob.__init__.negate_flags_include_DOTMATCH_(exclusions_behave_as_if_DOTGLOB)', ('C03', 'C16', 'C13'), guard(negate_flags_ok)),
             ('Glob.__init__.NODOTDIR_set_whenever_SCANDOTDIR_is_not', ('C03', 'C05'), guard(lambda c: z3.Implies((f1() & bv(GL['SCANDOTDIR'])) == bv(0), has(c.st.fields['flags'].t, 'NODOTDIR')))),
             ('Glob.__init__.follow_links==FOLLOW_and_not_GLOBSTARLONG', ('C06',), guard(b('follow_links', lambda: z3.And(has(me.Fself()[0], 'FOLLOW'), z3.Not(has(me.Fself()[0], 'GLOBSTARLONG')))))),
             ('Glob.__init__.globstar==GLOBSTARLONG_or_GLOBSTAR', ('C06', 'C02'), guard(b('globstar', lambda: z3.Or(has(me.Fself()[0], 'GLOBSTARLONG'), has(me.Fself()[0], 'GLOBSTAR'))))),
@@ -614,7 +614,7 @@ class GlobGlob(Contract):
     """Glob.glob(): per pattern, `is_abs_pattern` and `dir_only` are recomputed before any use; every `_format_path`
     site is dominated by `not _is_excluded(match, is_dir)` on the same arguments; each start directory is globbed with
     the FULL remaining pattern (fresh `this`/`rest` per start: `_glob` consumes the `rest` list it is given)."""
-    module, qual, props = 'glob', 'Glob.glob', ('C12', 'C13', 'C05')
+    module, qual, props = 'glob', 'Glob.glob', ('C12', 'C13', 'C05', 'C04')
     assumptions = ('_glob / _get_starting_paths / _lexists / _is_excluded / _format_path are abstract here (their own contracts and the tree harness cover them); '
                    '_glob may mutate the `rest` list it receives (it pops from it)',
                    'list axioms instantiated where used: head(p[i:]) == p[i], tail(p[i:]) == p[i+1:]')
@@ -690,7 +690,7 @@ class GlobGlob(Contract):
         return {1: ('self.pattern', t), 2: ('results', t), 3: ('self._glob(start, this, rest)', t), 4: ('results', t),
                 5: ('self._glob(curdir if not curdir == self.current else self.empty, this, rest)', t)}
 
-    obligation_props = {'Glob.glob._glob_receives': ('C05',), 'Glob.glob.is_abs_pattern': ('C12', 'C05'), 'Glob.glob.every_result': ('C13', 'C12'),
+    obligation_props = {'Glob.glob._glob_receives': ('C05', 'C04'), 'Glob.glob.is_abs_pattern': ('C12', 'C05', 'C13'), 'Glob.glob.every_result': ('C13', 'C12'),
                         'Glob.glob._format_path_gets': ('C12',), 'Glob.glob.loop': ('C05',)}
 
 
